@@ -10,16 +10,16 @@ import (
 // C09 — commands run exactly once and only after a fully successful parse.
 
 type C09Payload struct {
-	Plan       *Plan              `json:"plan"`
-	Faults     []ArgFault         `json:"faults,omitempty"`
-	First      *Plan              `json:"first,omitempty"` // an earlier fault-free parse on the same parser (reuse)
-	Completion string             `json:"completion,omitempty"`
+	Plan       *Plan      `json:"plan"`
+	Faults     []ArgFault `json:"faults,omitempty"`
+	First      *Plan      `json:"first,omitempty"` // an earlier fault-free parse on the same parser (reuse)
+	Completion string     `json:"completion,omitempty"`
 	// CompWhen: "" = GO_FLAGS_COMPLETION is in the environment from process start;
 	// "late" = it is set after the parser was constructed; "unset-late" = it is set
 	// at start and unset after construction (then the parse is an ordinary one).
-	CompWhen string `json:"comp_when,omitempty"`
-	Fd1Faults  []simrt.WriteFault `json:"fd1_faults,omitempty"`
-	Fd2Faults  []simrt.WriteFault `json:"fd2_faults,omitempty"`
+	CompWhen  string             `json:"comp_when,omitempty"`
+	Fd1Faults []simrt.WriteFault `json:"fd1_faults,omitempty"`
+	Fd2Faults []simrt.WriteFault `json:"fd2_faults,omitempty"`
 }
 
 type propC09 struct{}
